@@ -309,6 +309,7 @@ func runCase(t *testing.T, r *run.Runner, c *wireCase, idx int) {
 		body = nil // a truly empty body
 	}
 	var inner http.RoundTripper
+	var replaceBody []byte
 	url := "http://wire.example/x"
 	if c.Proto == "h2" {
 		if !startH2(t) {
@@ -325,6 +326,9 @@ func runCase(t *testing.T, r *run.Runner, c *wireCase, idx int) {
 		defer inner.(*http.Transport).CloseIdleConnections()
 	} else {
 		inner = pipeTransport(func(reqText string) []byte {
+			if replaceBody != nil {
+				return rawResponse(c, replaceBody) // a full reply to the validation request
+			}
 			if strings.Contains(strings.ToLower(reqText), "if-none-match:") {
 				// validation: a 304 that nominates hop-by-hop fields of its own and updates one field
 				return []byte("HTTP/1.1 304 Not Modified\r\nEtag: \"wire\"\r\nDate: " + time.Now().UTC().Format(http.TimeFormat) +
@@ -385,44 +389,51 @@ func runCase(t *testing.T, r *run.Runner, c *wireCase, idx int) {
 	if resp1.StatusCode != o.status {
 		r.Violation("miss-status-differs", sig, fmt.Sprintf("status %d forwarded, origin sent %d", resp1.StatusCode, o.status), nil)
 	}
-	// hop-by-hop names for this response
-	hop := map[string]bool{}
-	for _, h := range hopByHop {
-		hop[h] = true
-	}
-	for _, line := range o.header.Values("Connection") {
-		for _, f := range strings.Split(line, ",") {
-			if f = strings.TrimSpace(f); f != "" {
-				hop[http.CanonicalHeaderKey(f)] = true
-			}
+	// hop-by-hop names for a response
+	hopOf := func(o *snap) map[string]bool {
+		hop := map[string]bool{}
+		for _, h := range hopByHop {
+			hop[h] = true
 		}
-	}
-	// store values: no hop-by-hop field in a stored header block
-	for _, op := range rec.Ops(0) {
-		if op.Op != "set" || !bytes.Contains(op.Value, []byte("\r\n\r\n")) {
-			continue
-		}
-		block := op.Value[:bytes.Index(op.Value, []byte("\r\n\r\n"))]
-		for _, line := range strings.Split(string(block), "\r\n")[1:] {
-			name, _, ok := strings.Cut(line, ":")
-			// framing fields the serialisation itself adds to the dump (Connection:
-			// close, Transfer-Encoding: chunked) are not the origin's fields: only
-			// hop-by-hop fields the cache received from the origin count
-			val := strings.TrimSpace(strings.TrimPrefix(line, name+":"))
-			fromOrigin := false
-			for _, ov := range o.header.Values(name) {
-				if strings.TrimSpace(ov) == val {
-					fromOrigin = true
+		for _, line := range o.header.Values("Connection") {
+			for _, f := range strings.Split(line, ",") {
+				if f = strings.TrimSpace(f); f != "" {
+					hop[http.CanonicalHeaderKey(f)] = true
 				}
 			}
-			if (strings.EqualFold(name, "Connection") && val == "close") || (strings.EqualFold(name, "Transfer-Encoding") && val == "chunked") {
-				continue // indistinguishable from the dump's own framing; judged on replay
+		}
+		return hop
+	}
+	// store values: no hop-by-hop field in a stored header block
+	scanStore := func(o *snap, fromOp int, label string) {
+		hop := hopOf(o)
+		for _, op := range rec.Ops(fromOp) {
+			if op.Op != "set" || !bytes.Contains(op.Value, []byte("\r\n\r\n")) {
+				continue
 			}
-			if ok && hop[http.CanonicalHeaderKey(name)] && fromOrigin {
-				r.Violation("hop-by-hop-stored", sig+",field="+hopClass(name), fmt.Sprintf("hop-by-hop field %q was written to the store: %q", name, line), nil)
+			block := op.Value[:bytes.Index(op.Value, []byte("\r\n\r\n"))]
+			for _, line := range strings.Split(string(block), "\r\n")[1:] {
+				name, _, ok := strings.Cut(line, ":")
+				// framing fields the serialisation itself adds to the dump (Connection:
+				// close, Transfer-Encoding: chunked) are not the origin's fields: only
+				// hop-by-hop fields the cache received from the origin count
+				val := strings.TrimSpace(strings.TrimPrefix(line, name+":"))
+				fromOrigin := false
+				for _, ov := range o.header.Values(name) {
+					if strings.TrimSpace(ov) == val {
+						fromOrigin = true
+					}
+				}
+				if (strings.EqualFold(name, "Connection") && val == "close") || (strings.EqualFold(name, "Transfer-Encoding") && val == "chunked") {
+					continue // indistinguishable from the dump's own framing; judged on replay
+				}
+				if ok && hop[http.CanonicalHeaderKey(name)] && fromOrigin {
+					r.Violation("hop-by-hop-stored", sig+label+",field="+hopClass(name), fmt.Sprintf("hop-by-hop field %q was written to the store: %q", name, line), nil)
+				}
 			}
 		}
 	}
+	scanStore(o, 0, "")
 	// 2. from the store
 	resp2, b2, err2, rerr2 := get()
 	r.AddEvaluations(1)
@@ -438,49 +449,53 @@ func runCase(t *testing.T, r *run.Runner, c *wireCase, idx int) {
 	r.Nontrivial(fmt.Sprintf("%+v", *c))
 	r.Count("proto:"+c.Proto+"/"+c.Framing, 1)
 	r.Count("backend:"+c.Backend, 1)
-	if resp2.StatusCode != o.status {
-		r.Violation("status-differs", sig, fmt.Sprintf("stored response has status %d, origin sent %d", resp2.StatusCode, o.status), nil)
+	compareHit := func(o *snap, resp2 *http.Response, b2 []byte, rerr2 error, label string) {
+		hop := hopOf(o)
+		if resp2.StatusCode != o.status {
+			r.Violation("status-differs", sig+label, fmt.Sprintf("stored response has status %d, origin sent %d", resp2.StatusCode, o.status), nil)
+		}
+		if rerr2 != nil || !bytes.Equal(b2, o.body) {
+			at := 0
+			for at < len(b2) && at < len(o.body) && b2[at] == o.body[at] {
+				at++
+			}
+			r.Violation("body-differs", sig+label+fmt.Sprintf(",class=%s", c.BodyClass), fmt.Sprintf("stored body differs from the origin's: %d vs %d bytes, first difference at %d, read error %v (backend %s)", len(b2), len(o.body), at, rerr2, c.Backend), nil)
+		}
+		// end-to-end header fields: ordered value lists
+		own := map[string]bool{"Age": true, "X-Httpcache-Status": true, "X-From-Cache": true}
+		for k, vs := range o.header {
+			if hop[k] {
+				continue
+			}
+			got := resp2.Header[k]
+			if k == "Content-Length" {
+				continue // framing metadata, checked through the body
+			}
+			if !equalStrings(got, vs) {
+				r.Violation("header-differs", sig+label+",field="+fieldClass(k), fmt.Sprintf("end-to-end field %s: origin sent %q, stored response has %q", k, trunc(vs), trunc(got)), nil)
+			}
+		}
+		var extra []string
+		for k := range resp2.Header {
+			if _, sent := o.header[k]; !sent && !own[k] && k != "Content-Length" {
+				extra = append(extra, k)
+			}
+			if hop[k] {
+				r.Violation("hop-by-hop-replayed", sig+label+",field="+hopClass(k), fmt.Sprintf("hop-by-hop field %s: %q replayed from the store", k, resp2.Header[k]), nil)
+			}
+		}
+		sort.Strings(extra)
+		for _, k := range extra {
+			if hop[k] {
+				continue
+			}
+			r.Violation("extra-field", sig+label+",field="+fieldClass(k), fmt.Sprintf("stored response carries field %s: %q that the origin did not send", k, resp2.Header[k]), nil)
+		}
+		if cl := resp2.Header.Get("Content-Length"); cl != "" && cl != strconv.Itoa(len(o.body)) {
+			r.Violation("content-length-wrong", sig+label, fmt.Sprintf("Content-Length %s on a stored response with %d body bytes", cl, len(o.body)), nil)
+		}
 	}
-	if rerr2 != nil || !bytes.Equal(b2, o.body) {
-		at := 0
-		for at < len(b2) && at < len(o.body) && b2[at] == o.body[at] {
-			at++
-		}
-		r.Violation("body-differs", sig+fmt.Sprintf(",class=%s", c.BodyClass), fmt.Sprintf("stored body differs from the origin's: %d vs %d bytes, first difference at %d, read error %v (backend %s)", len(b2), len(o.body), at, rerr2, c.Backend), nil)
-	}
-	// end-to-end header fields: ordered value lists
-	own := map[string]bool{"Age": true, "X-Httpcache-Status": true, "X-From-Cache": true}
-	for k, vs := range o.header {
-		if hop[k] {
-			continue
-		}
-		got := resp2.Header[k]
-		if k == "Content-Length" {
-			continue // framing metadata, checked through the body
-		}
-		if !equalStrings(got, vs) {
-			r.Violation("header-differs", sig+",field="+fieldClass(k), fmt.Sprintf("end-to-end field %s: origin sent %q, stored response has %q", k, trunc(vs), trunc(got)), nil)
-		}
-	}
-	var extra []string
-	for k := range resp2.Header {
-		if _, sent := o.header[k]; !sent && !own[k] && k != "Content-Length" {
-			extra = append(extra, k)
-		}
-		if hop[k] {
-			r.Violation("hop-by-hop-replayed", sig+",field="+hopClass(k), fmt.Sprintf("hop-by-hop field %s: %q replayed from the store", k, resp2.Header[k]), nil)
-		}
-	}
-	sort.Strings(extra)
-	for _, k := range extra {
-		if hop[k] {
-			continue
-		}
-		r.Violation("extra-field", sig+",field="+fieldClass(k), fmt.Sprintf("stored response carries field %s: %q that the origin did not send", k, resp2.Header[k]), nil)
-	}
-	if cl := resp2.Header.Get("Content-Length"); cl != "" && cl != strconv.Itoa(len(o.body)) {
-		r.Violation("content-length-wrong", sig, fmt.Sprintf("Content-Length %s on a stored response with %d body bytes", cl, len(o.body)), nil)
-	}
+	compareHit(o, resp2, b2, rerr2, "")
 	// 3. revalidation (HTTP/1.x scripts only): the 304's hop-by-hop fields are
 	// not merged, its end-to-end field is, the body stays exact - also on the
 	// next request served from the store
@@ -515,6 +530,45 @@ func runCase(t *testing.T, r *run.Runner, c *wireCase, idx int) {
 			}
 			r.Count("requests_after_304", 1)
 		}
+	}
+	// 4. replacement (HTTP/1.x scripts only): a forced validation is answered with
+	// a full reply (same framing and hop-by-hop set, another body); what is
+	// forwarded, what is written and what the next hit returns are judged again
+	if c.Proto != "h2" {
+		body2 := sim.MakeBody(serial+"b", c.BodySize+7, c.BodyClass[0])
+		replaceBody = body2
+		opsBefore, callsBefore := len(rec.Ops(0)), len(sn.snaps)
+		req, _ := http.NewRequest("GET", url, nil)
+		req.Header.Set("Cache-Control", "no-cache")
+		resp, err := rt.RoundTrip(req)
+		if err != nil {
+			r.Violation("replacement-failed", sig, fmt.Sprintf("forced validation answered with a full reply failed: %v", err), nil)
+		} else {
+			b, rerr := io.ReadAll(resp.Body)
+			resp.Body.Close()
+			r.AddEvaluations(1)
+			if len(sn.snaps) == callsBefore+1 && sn.snaps[callsBefore].bodyErr == nil && bytes.Equal(sn.snaps[callsBefore].body, body2) {
+				o2 := sn.snaps[callsBefore]
+				if rerr != nil || !bytes.Equal(b, o2.body) {
+					r.Violation("miss-body-differs", sig+",replacement", fmt.Sprintf("the full reply to a validation request was forwarded with %d body bytes (read error %v), the origin sent %d", len(b), rerr, len(o2.body)), nil)
+				}
+				scanStore(o2, opsBefore, ",replacement")
+				resp3, b3, err3, rerr3 := get()
+				r.AddEvaluations(1)
+				switch {
+				case err3 != nil:
+					r.Violation("hit-failed", sig+",replacement", fmt.Sprintf("request after the replacement failed: %v", err3), nil)
+				case len(sn.snaps) != callsBefore+1:
+					r.Count("replacement_not_served_from_store", 1)
+				default:
+					compareHit(o2, resp3, b3, rerr3, ",replacement")
+					r.Count("replacements_compared", 1)
+				}
+			} else {
+				r.Count("replacement_not_observed", 1)
+			}
+		}
+		replaceBody = nil
 	}
 	if r.WantSample() {
 		r.Sample(map[string]any{"case": map[string]any{"proto": c.Proto, "framing": c.Framing, "status": c.Status, "body_size": c.BodySize, "body_class": c.BodyClass, "n_headers": len(c.Headers), "backend": c.Backend, "hop_set": c.HopSet},
